@@ -29,10 +29,14 @@ impl Iterator for Points {
     type Item = Point;
 
     fn next(&mut self) -> Option<Self::Item> {
-        self.current_scanline.next().or_else(|| {
+        loop {
+            if let Some(point) = self.current_scanline.next() {
+                return Some(point);
+            }
+
+            // Rows without any point inside the ellipse are skipped.
             self.current_scanline = self.scanlines.next()?;
-            self.current_scanline.next()
-        })
+        }
     }
 }
 
@@ -75,6 +79,8 @@ impl Iterator for Scanlines {
             })
             // Shorten the right side of the scanline by the same amount as the left side.
             .map(|x| Scanline::new(y, x..self.columns.end - (x - self.columns.start)))
+            // Very thin ellipses can contain rows without any point.
+            .or_else(|| Some(Scanline::new_empty(y)))
     }
 }
 
